@@ -10,6 +10,7 @@
   `Canonical q := 0 < den ∧ Int.gcd num den = 1` (hence zero is 0/1).
 -/
 import MpirProofs.Lemmas.Mpq
+import MpirProofs.Lemmas.MpqConv
 namespace Mpir.Mpq
 
 /-- a store with 1/6 in variable 1 and 3/10 in every other variable (for the non-vacuity examples) -/
@@ -230,6 +231,41 @@ example : mul_2exp 1 1 64 (fun _ => ⟨1, 2 ^ 128⟩) 1 = ⟨1, 2 ^ 64⟩ := by 
 example : mul_2exp 0 1 5 (fun _ => ⟨3, 40⟩) 0 = ⟨12, 5⟩ := by decide +kernel
 example : div_2exp 1 1 67 (fun _ => ⟨3 * 2 ^ 70, 5⟩) 1 = ⟨24, 5⟩ := by decide +kernel
 example : div_2exp 0 1 9 (fun _ => ⟨0, 1⟩) 0 = ⟨0, 1⟩ := by decide
+
+/-- mpq_set_f converts exactly: for the mpf operand `± F · B^(fexp − limbs F)` (mantissa `F`, exponent
+    in limbs, low zero limbs allowed) the result is that rational number in canonical form. -/
+theorem mpq_set_f_spec (dest : Nat) (neg : Bool) (F : Nat) (fexp : Int) (h : Heap) :
+    (set_f dest neg F fexp h dest).toRat = mpfVal neg F fexp ∧ Canonical (set_f dest neg F fexp h dest) ∧
+    ∀ j, j ≠ dest → set_f dest neg F fexp h j = h j := by
+  unfold set_f
+  simp only [setDen_setNum]
+  refine ⟨?_, ?_, fun j hj => upd_other _ _ _ _ hj⟩ <;> rw [upd_self]
+  · exact (setFVal_spec neg F fexp).1
+  · exact (setFVal_spec neg F fexp).2
+
+-- non-vacuity: mantissa limbs [0, 6] with exponent 1 is 6·B·B^(1-2) = 6 (the zero low limb is stripped);
+-- mantissa 12 with exponent 0 is 12/B = 3/2^62 (even low limb: shift by ctz)
+example : set_f 1 false (6 * B) 1 exHeap 1 = ⟨6, 1⟩ := by decide +kernel
+example : set_f 1 true 12 0 exHeap 1 = ⟨-3, 2 ^ 62⟩ := by decide +kernel
+
+/-- mpq_set_d converts exactly: for every finite double (sign bit `s`, exponent field `e < 2047`,
+    fraction `f < 2^52`; normal, denormal or zero) the result is its exact value in canonical form.
+    (NaN and infinities raise the invalid-operation exception before anything is stored.) -/
+theorem mpq_set_d_spec (dest : Nat) (s : Bool) (e f : Nat) (h : Heap) (hf : f < 2 ^ 52) :
+    (set_d dest s e f h dest).toRat = dblVal s e f ∧ Canonical (set_d dest s e f h dest) ∧
+    ∀ j, j ≠ dest → set_d dest s e f h j = h j := by
+  unfold set_d
+  simp only [setDen_setNum]
+  refine ⟨?_, ?_, fun j hj => upd_other _ _ _ _ hj⟩ <;> rw [upd_self]
+  · exact (setDVal_spec s e f hf).1
+  · exact (setDVal_spec s e f hf).2
+
+-- non-vacuity: 0.75 (e = 1022, f = 2^51) -> 3/4 ; -2^70 ; the smallest denormal 2^-1074
+example : set_d 1 false 1022 (2 ^ 51) exHeap 1 = ⟨3, 4⟩ := by decide +kernel
+example : set_d 1 true 1093 0 exHeap 1 = ⟨-(2 ^ 70), 1⟩ := by decide +kernel
+example : set_d 1 false 0 1 exHeap 1 = ⟨1, 2 ^ 1074⟩ := by decide +kernel
+example : dblVal false 1022 (2 ^ 51) = 3 / 4 := by
+  unfold dblVal dblMag; norm_num
 
 /-- mpq_equal on canonical operands decides equality of the rational values. -/
 theorem mpq_equal_iff (op1 op2 : Nat) (h : Heap) (h1 : Canonical (h op1)) (h2 : Canonical (h op2)) :
